@@ -172,6 +172,8 @@ class Kernel:
         with filter and element expressed over the BASE element; None if t is not such a list."""
         if depth > 6 or not isinstance(t, tuple) or not t:
             return None
+        if t[0] == "call" and t[1] == "list" and len(t[2]) == 1 and not t[3]:
+            return self.listexpr(t[2][0], depth + 1)          # list(<generator / list>) is that list
         if t[0] == "compr":
             L = self.sx.loops[t[1]]
             if L.ckind not in ("list", "gen", "set"):
